@@ -885,6 +885,29 @@ def evaluate(rep, cases, proofs_ok, want_exhaustive=True):
             rep.count("raw_compile_failed:" + " ".join(c.ans.split(" ")[1:3]))
             continue
         rep.count("evaluations")
+        # meta tie: the priorities / associativities the compiler ANALYSED are the ones the grammar text says, for all four
+        # associativity keywords at production and terminal level (the cells below are judged on the analysed values)
+        if c.dump is not None and getattr(c, "g", None) is not None:
+            try:
+                kp, kt = c.known_prods(), c.known_terms()
+                A = {"N": "N", "L": "L", "R": "R", "none": "N", "left": "L", "right": "R"}
+                for i, (prio, assoc, nops, nopse) in kp.items():
+                    p = c.dump["prods"][i]
+                    got = (p["prio"], A.get(str(p["assoc"]), p["assoc"]), bool(p["nops"]), bool(p["nopse"]))
+                    if got != (prio, assoc, nops, nopse):
+                        failures.append((c, f"production {i}: meta-data words {c.g.prod_meta.get(render_order(c.g)[i - 1], [])} mean "
+                                            f"(prio, assoc, nops, nopse) = {(prio, assoc, nops, nopse)}, the compiler analysed {got}", {}, "meta"))
+                        break
+                for i, (prio, assoc) in kt.items():
+                    t = c.dump["terms"][i]
+                    got = (t["prio"], A.get(str(t["assoc"]), t["assoc"]))
+                    if got != (prio, assoc):
+                        failures.append((c, f"terminal {i}: meta-data words {c.g.term_meta.get(list(c.g.terms)[i - 1], [])} mean (prio, assoc) = "
+                                            f"{(prio, assoc)}, the compiler analysed {got}", {}, "meta"))
+                        break
+                rep.count("meta_tie_compared")
+            except (KeyError, IndexError) as e:
+                rep.count("meta_tie_skipped")
         why = correspondence(c)
         if c.model is not None:
             rep.count("correspondence_compared")
